@@ -75,4 +75,15 @@ TEXT["C09"] = dict(
   note=("PARTIAL: real thread schedules are sampled, not proved; A1 (no shared mutable state) is a lexical scan, A2 "
         "(rayon's indexed collect) is trusted."),
   technique="Lean 4 proof (schedule-independence and chunk/flatten lemmas) + differential correspondence under contention")
+TEXT["C12"] = dict(
+  text=("Machine-checked Lean 4 theorem over a file-system model: for ANY operation trace in which nothing touches the "
+        "destination except one rename onto it, after EVERY prefix (process death at any system call) and from every "
+        "initial file system the destination holds exactly its previous content or exactly the temp file's content at "
+        "the rename; a trace without that rename leaves it untouched. The implementation is tied to that shape by "
+        "abstracting its real strace trace (descriptor tracking) and having the model decide it, and by fault enumeration: "
+        "ENOSPC and SIGKILL injected at the relevant calls and RLIMIT_FSIZE short writes, after which the destination "
+        "must be byte-identical to before or a complete archive whose files read back."),
+  note=("PARTIAL: rename atomicity is an assumption; the temp file's completeness at the rename is established by the "
+        "fault enumeration (sampled configurations), not proved; single faults only."),
+  technique="Lean 4 proof (prefix-closed invariant over operation traces) + strace trace refinement + fault enumeration")
 NA = {}
